@@ -245,6 +245,11 @@ func createObjectMergePatch(originalJSON, modifiedJSON []byte) ([]byte, error) {
 		return nil, ErrBadJSONDoc
 	}
 
+	if originalDoc == nil || modifiedDoc == nil {
+		// the JSON text "null" decodes to a nil map: not an object
+		return nil, ErrBadJSONDoc
+	}
+
 	dest, err := getDiff(originalDoc, modifiedDoc)
 	if err != nil {
 		return nil, err
